@@ -10,7 +10,9 @@ Specification: spec/P2Bin.tla (on top of spec/CodeFile.tla)
     records, window = given or lowest/highest used address, output position i <-> i-th byte address of the lane,
     fill where nobody covers, any covering record's byte where records overlap (manual silent about the winner),
     entry header, zero byte sum, overlap warning <=> two selected records share an address.
-
+  * LANE PHASE: image starts (-r lower bound / lowest used address x granularity) of ANY phase of the -m lane period are judged
+    (Definite asks only for a whole-period LENGTH; P2Bin_MC_phase*/CoverPhase*.cfg, SimLo/SimHi, shifted corpus windows): before,
+    such cases were generated but counted "manual silent", so a target position taken from the distance to the start went unseen.
 (F) spec/FilterList.tla: the option state behind -f (shared toolutils.c CMD_FilterList/FilterOK + cmdarg.c ProcessCMD):
     a case carries the SEQUENCE of -f (add) / +f (cancel) operations, those preset through P2BINCMD first; operational =
     the FilterBytes array with append-unless-found and swap-remove, declarative = an id is in the filter iff the last
@@ -39,8 +41,8 @@ Verdict: ~ok is a violation; it is a KNOWN finding only if fit names deviations 
 Bounds: addresses < 2^24 (no 32-bit wrap), payload per record <= 32 bytes in generated cases (plus the P2Bin_CoverBig
     space: one record of 4097 or 9000 bytes, longer than the 4096-byte copy buffer, x 9 lanes x 2 windows), corpus
     files <= 24 KiB (quick) with windows <= 1024 units; MC constants are stated in the cfg files.
-NOT covered: non-definite cases are not judged (mixed granularity among the selected records, windows that are not
-    whole lane periods, automatic range with nothing selected, overlap only outside the window); -k; wildcards in
+NOT covered: non-definite cases are not judged (mixed granularity among the selected records, windows whose length is
+    not a whole number of lane periods, automatic range with nothing selected, overlap only outside the window); -k; wildcards in
     file names; environment variable P2BINCMD; addresses >= 2^24; records > 64 KiB cannot exist.
     Which record wins on overlapping bytes and the header contents without any entry address are left open as the
     manual does; the model's choice (last record wins, zeros) is only tracked as drift.
@@ -53,6 +55,8 @@ MUTATIONS tried (scratch copies, VERIF_REPO; list with sed expressions in selfte
     LaneBytesBelow.
   detected after the -f / +f operation sequences were added (FilterList.tla): swap-remove of a cancelled filter entry
     reading the slot past the end (`FilterBytes[FilterCnt--]`), which only shows with -f a,b,c +f <non-last entry>.
+  detected after the lane-phase dimension was added (925 violations in the quick tier, none before): fseek target
+    LaneBytesBelow((ErgStart - StartAdr) * Gran) instead of LaneBytesBelow(ErgStart * Gran) - LaneBytesBelow(StartAdr * Gran).
   equivalent (exit 0, rightly): `+1` in LaneBytesBelow (cancels in the difference).
   reported as KNOWN-FINDING only: removing the repaired secondary overlap test from the fixed tree (it IS the known
     defect; becomes a VIOLATION when known_findings/C05.json flips that entry to "fixed").
@@ -70,9 +74,9 @@ SEGNAMES = {1: "code", 2: "data", 3: "idata", 4: "xdata", 5: "ydata", 6: "bitdat
 ADDR_BOUND = 1 << 24
 
 MC_QUICK = ["P2Bin_MC_window.cfg", "P2Bin_MC_overlap.cfg", "P2Bin_MC_select.cfg", "P2Bin_MC_post.cfg",
-            "P2Bin_MC_files.cfg"]
+            "P2Bin_MC_files.cfg", "P2Bin_MC_phase.cfg"]
 MC_THOROUGH = ["P2Bin_MC_window3.cfg", "P2Bin_MC_overlap.cfg", "P2Bin_MC_select3.cfg", "P2Bin_MC_post.cfg",
-               "P2Bin_MC_files3.cfg"]
+               "P2Bin_MC_files3.cfg", "P2Bin_MC_phase3.cfg"]
 DEV_CFG = {d: "P2Bin_MC_dev_%s.cfg" % d for d in DEVS}
 
 
@@ -186,8 +190,11 @@ def corpus_options(items, r, maxwin):
             mode = r.randrange(5)
             lane = r.choice(["ALL", "ALL", "EVEN", "ODD", "BYTE0", "BYTE1", "BYTE2", "BYTE3", "WORD0", "WORD1"])
             if lane != "ALL":
+                # whole lane periods in length; the window start takes any phase of the period (ph = 0: aligned)
+                ph = r.choice([0, 0, 1, 2, 3])
                 lo -= lo % 4
                 hi += 3 - (hi % 4)
+                lo, hi = lo + ph, hi + ph
             span = max(it2["start"] + len(it2["data"]) // it2["gran"] for it2 in sel) - min(it2["start"] for it2 in sel)
             if mode == 0 and span <= maxwin:
                 pass
@@ -326,8 +333,10 @@ def main(tier):
 
     # (G) ------------------------------------------------------------------------------------------
     cases = []
-    for cfg in (["P2Bin_Cover.cfg", "P2Bin_CoverOvl.cfg", "P2Bin_CoverBig.cfg", "P2Bin_CoverFilt.cfg"] if tier == "quick"
-                else ["P2Bin_Cover1.cfg", "P2Bin_CoverOvl.cfg", "P2Bin_CoverBig.cfg", "P2Bin_CoverFilt.cfg", "P2Bin_Cover2.cfg"]):
+    for cfg in (["P2Bin_Cover.cfg", "P2Bin_CoverOvl.cfg", "P2Bin_CoverBig.cfg", "P2Bin_CoverFilt.cfg", "P2Bin_CoverPhase.cfg"]
+                if tier == "quick"
+                else ["P2Bin_Cover1.cfg", "P2Bin_CoverOvl.cfg", "P2Bin_CoverBig.cfg", "P2Bin_CoverFilt.cfg", "P2Bin_Cover2.cfg",
+                      "P2Bin_CoverPhase1.cfg"]):
         with Phase("TLC " + cfg):
             cov = tlc.must(tlc.run("P2Bin_Gen", cfg, timeout=1500, mem="8g"), cfg)
         rep.model("P2Bin_Gen(%s)" % cfg, cov)
